@@ -437,6 +437,7 @@ type Clause struct {
 	Src   string
 	Loop  int // invariant/decreases: loop ordinal
 	Lhs   *Node // ghost_set target
+	Callee string // call_requires: short name of the callee
 }
 
 type AssignItem struct {
@@ -782,6 +783,16 @@ func parseClause(c *Contract, word, rest string) error {
 				c.Assigns = append(c.Assigns, AssignItem{Src: it, Expr: e, Upto: upto})
 			}
 		}
+	case "call_requires":
+		// call_requires <callee> label: expr — an obligation of THIS function at each of its calls to <callee>,
+		// evaluated over this function's variables and arg0..argN of the call
+		callee, r2 := splitWord(rest)
+		label, src := splitLabel(r2)
+		e, err := parseSpecExpr(src)
+		if err != nil {
+			return err
+		}
+		c.Clauses = append(c.Clauses, &Clause{Kind: "call_requires", Label: label, Props: props, Expr: e, Src: src, Callee: callee})
 	case "ghost_set":
 		// ghost_set <location> = <expr> : ghost assignment performed at every normal return
 		eq := strings.Index(rest, " = ")
